@@ -547,7 +547,8 @@ Lemma src_facts_lemma :
   no_inplace_write = true /\ store_fresh = true /\ store_last = true /\ recheck_after_lock = true /\
   lock_balanced = true /\ no_foreign_call_under_lock = true /\ store_sites_only_loaders = true /\
   entry_keyed = true /\ init_double_checked = true /\ init_flag_store_last = true /\
-  init_unlock_deferred = true /\ inited_writers_ok = true /\ find_cmp_lt = true /\ find_final_eq = true /\
+  init_unlock_deferred = true /\ inited_writers_ok = true /\
+  pool_put_after_last_use = true /\ 4 <= pool_put_sites /\ find_cmp_lt = true /\ find_final_eq = true /\
   3 <= loaders_checked /\ loaders_checked = finders_checked /\
   find_shift = 1 /\ find_lo_inc = 1 /\ ins_len_inc = 1 /\ ins_hi_dst = 1 /\ ins_hi_src = 0 /\ ins_lo_dst = 0 /\ ins_set = 0.
 Proof. vm_compute. repeat apply conj; try reflexivity. repeat constructor. Qed.
